@@ -23,6 +23,7 @@ func checkC13(c *Check, a *Anchors) {
 	c13OutcomeTypes(c, a)
 	c13LoggerPrompt(c, a)
 	c13EnumTotal(c, a)
+	c03StopOnError(c, a) // a guard refusal inside a nested call is not an exit status: the caller must fail too, whatever its ignore_error
 }
 
 // guard order: must-facts at the dedup call of RunTask and at the command events of the body.
